@@ -23,14 +23,14 @@ Rec == ndJsonDeserialize(IOEnv.TRACE)
 VARIABLES l, tid, bad
 tvars == <<vars, l, tid, bad>>
 
-TInit == /\ cmd = "check" /\ args = <<>> /\ enc = [f \in Files |-> "utf8"]
+TInit == /\ cmd = "check" /\ args = <<>> /\ enc = [f \in Files |-> "utf8"] /\ verb = 0
          /\ phase = "Idle" /\ entries = {} /\ sources = {} /\ diags = {} /\ okLine = FALSE /\ exit = -1
          /\ l = 1 /\ tid = -1 /\ bad = <<>>
 
 IsEv(e) == l <= Len(Rec) /\ Rec[l].ev = e /\ l' = l + 1
 
 TRun == /\ IsEv("run")
-        /\ cmd' = Rec[l].cmd /\ args' = Rec[l].args /\ enc' = enc
+        /\ cmd' = Rec[l].cmd /\ args' = Rec[l].args /\ enc' = enc /\ verb' = (IF "verb" \in DOMAIN Rec[l] THEN Rec[l].verb ELSE 0)
         /\ phase' = "Start" /\ entries' = {} /\ sources' = {} /\ diags' = {} /\ okLine' = FALSE /\ exit' = -1
         /\ tid' = Rec[l].tid
         /\ UNCHANGED bad
